@@ -18,7 +18,10 @@ DROP directly follows the RENAME), and rename-based removals: rename then drop, 
 the rename-first rebuild (RENAME t TO t_old; CREATE t without a column; INSERT; DROP t_old), temporary tables
 that are renamed before they are dropped; and `-- atlas:nolint` directives (bare / DS102 / DS103 / destructive / a
 code that does not apply) at statement level on all, some or none of the destructive statements of a file (hand, and
-injected as review comments into `migrate diff` output) and at file level.
+injected as review comments into `migrate diff` output) and at file level; the rebuild pattern WITHOUT the row copy
+(CREATE new_t with the same / more columns, DROP t, RENAME: drop-and-replace); files with Windows (CRLF) and mixed line
+endings, hand-written and `migrate diff` output converted the way an autocrlf checkout does; a virtual table (fts4 / fts3 /
+rtree) created in history and dropped in the window (evolution hand-written throughout).
 
 Observation: `atlas migrate lint --dir file://migrations --dev-url sqlite://dev.db --latest N
 --format '{{ json . }}'` for every window N: exit status and Files[].Reports[].Diagnostics[].{Code,Pos,Text}.
@@ -26,14 +29,17 @@ Observation: `atlas migrate lint --dir file://migrations --dev-url sqlite://dev.
 Oracle (independent of Atlas): the files are replayed statement by statement with python's sqlite3; PRAGMA
 facts after every statement follow the tables and non-virtual columns that existed BEFORE the file: one that
 disappears is dropped by that statement (a table keeps its identity through a rebuild group CREATE tmp .. DROP t
-.. RENAME tmp TO t; columns missing at the RENAME are dropped by the group; a table renamed by ALTER TABLE ..
+.. RENAME tmp TO t that copies the rows with INSERT INTO tmp .. SELECT .. FROM t -- without the copy the DROP is a
+table drop --; columns missing at the RENAME are dropped by the group; a table renamed by ALTER TABLE ..
 RENAME TO lives on under the new name, and when it is dropped later the RENAMEs and the final DROP together are
 the statements that remove it: one DS102 naming any of its names on any of them is accepted -- the community build
 has no parser and sees a RENAME as drop + add, it reports on the RENAME; for the rename-first rebuild a DS103 naming
 lost columns inside that range is accepted as well); objects the file creates itself --
 also under the name of something it dropped earlier -- are never "pre-existing" (state after each file is
 cross-checked with the model the files were generated from). Each dropped object must be covered by exactly one
-DS102 / DS103 diagnostic whose Pos lies inside the causing statement / group; nothing else may carry a DS1xx
+DS102 / DS103 diagnostic whose Pos -- a byte offset into the ORIGINAL file -- lies inside the text of the causing
+statement / group proper (from its first character, not in the comments or blank lines above it; so its line is a line of
+that statement); DS102 for the shadow tables of a dropped virtual table are optional; nothing else may carry a DS1xx
 diagnostic; the exit status must be non-zero iff a DS1xx diagnostic was reported.
 nolint (documented semantics, directives parsed independently from the file text): a destructive statement excused
 by a directive on the statement lint reports on (DROP TABLE, ALTER .. DROP COLUMN, the CREATE of a rebuild) or by
